@@ -9,7 +9,9 @@ package main
 //   cancels, whether the asynchronous listening-stream start looks at a closed flag, whether the public Close() of the
 //   clients reaches transport.close() under no condition but `transport != nil`, whether the legacy SSE client's `start`
 //   bounds its stream request by the caller's context while it is being established and waits for the endpoint event
-//   with a case for the stream's context (which Close() cancels);
+//   with a case for the stream's context (which Close() cancels), whether internal/retry's Execute waits between two
+//   attempts in a select with the caller's context, whether the POST carrying the client's answer to a request of the
+//   server is built with a context derived from the stream's;
 //   (a') for the three servers: every function that registers a server-issued request in a pending table (directly or
 //   through a wrapper such as responseManager.RegisterRequest): is the delete deferred before any return can follow.
 // Purely syntactic and conservative: what is not recognised in exactly the shape the source uses is emitted as
@@ -19,6 +21,7 @@ import (
 	"fmt"
 	"go/ast"
 	"go/token"
+	"path/filepath"
 	"sort"
 	"strings"
 )
@@ -1110,6 +1113,130 @@ func clStartFacts(root *pkgSrc, fs []clFunc) (bounded, selStream bool) {
 	return bounded, selStream
 }
 
+// clBackoffCtx: internal/retry Execute — between two attempts it waits in a select that has both `<-P.Done()` for its context
+// parameter P and a timer case (`<-time.After(…)` / a timer's channel), and the function never calls time.Sleep.
+func clBackoffCtx() bool {
+	rp := loadDir(filepath.Join(*repo, "internal", "retry"))
+	fd, _ := rp.funcDecl("Execute")
+	if fd == nil || fd.Body == nil {
+		return false
+	}
+	ctxs := clCtxParams(fd)
+	sleeps, good := false, false
+	ast.Inspect(fd.Body, func(n ast.Node) bool {
+		switch x := n.(type) {
+		case *ast.CallExpr:
+			if clSquash(rp, x.Fun) == "time.Sleep" {
+				sleeps = true
+			}
+		case *ast.SelectStmt:
+			hasCtx, hasTimer, hasDefault := false, false, false
+			for _, c := range x.Body.List {
+				cc := c.(*ast.CommClause)
+				if cc.Comm == nil {
+					hasDefault = true
+					continue
+				}
+				txt := clSquash(rp, cc.Comm)
+				for p := range ctxs {
+					if strings.HasSuffix(txt, "<-"+p+".Done()") {
+						hasCtx = true
+					}
+				}
+				if strings.Contains(txt, "<-time.After(") || strings.HasSuffix(txt, ".C") {
+					hasTimer = true
+				}
+			}
+			if hasCtx && hasTimer && !hasDefault {
+				good = true
+			}
+		}
+		return true
+	})
+	return good && !sleeps
+}
+
+// clAnswerBound: the clients whose POST carrying the answer to a request of the server (Streamable sendResponseToServer, legacy
+// SSE sendResponseMessage) is built with a context X made by context.WithTimeout / WithCancel / WithDeadline directly from a
+// variable P that the function reads from the stream's connection record (`P := t.<conn>.ctx`; `P = context.Background()`
+// under `if P == nil` is the only other assignment allowed) — the context Close() cancels.
+func clAnswerBound(root *pkgSrc, fs []clFunc) []string {
+	var out []string
+	for _, site := range [][2]string{{"sse", "sendResponseMessage"}, {"streamable", "sendResponseToServer"}} {
+		fd := clFind(fs, site[0], site[1])
+		if fd == nil {
+			continue
+		}
+		x := ""
+		ast.Inspect(fd.Body, func(n ast.Node) bool {
+			if c, ok := n.(*ast.CallExpr); ok && clCalleeName(c) == "NewRequestWithContext" && len(c.Args) > 0 {
+				if id, ok := c.Args[0].(*ast.Ident); ok {
+					x = id.Name
+				}
+			}
+			return true
+		})
+		if x == "" {
+			continue
+		}
+		parent, ok := "", true
+		nX := 0
+		ast.Inspect(fd.Body, func(n ast.Node) bool {
+			as, isAs := n.(*ast.AssignStmt)
+			if !isAs || len(as.Lhs) == 0 {
+				return true
+			}
+			if id, isID := as.Lhs[0].(*ast.Ident); isID && id.Name == x {
+				nX++
+				call, isCall := as.Rhs[0].(*ast.CallExpr)
+				if !isCall || len(call.Args) == 0 {
+					ok = false
+					return true
+				}
+				switch clSquash(root, call.Fun) {
+				case "context.WithTimeout", "context.WithCancel", "context.WithDeadline":
+				default:
+					ok = false
+				}
+				if p, isP := call.Args[0].(*ast.Ident); isP {
+					parent = p.Name
+				} else {
+					ok = false
+				}
+			}
+			return true
+		})
+		if !ok || nX != 1 || parent == "" {
+			continue
+		}
+		fromStream := false
+		ast.Inspect(fd.Body, func(n ast.Node) bool {
+			as, isAs := n.(*ast.AssignStmt)
+			if !isAs || len(as.Lhs) != 1 || len(as.Rhs) != 1 {
+				return true
+			}
+			if id, isID := as.Lhs[0].(*ast.Ident); !isID || id.Name != parent {
+				return true
+			}
+			rhs := clSquash(root, as.Rhs[0])
+			switch {
+			case strings.HasPrefix(rhs, "t.") && strings.HasSuffix(rhs, "Conn.ctx"):
+				fromStream = true
+			case rhs == "context.Background()":
+				// allowed only as the nil fallback
+			default:
+				ok = false
+			}
+			return true
+		})
+		if ok && fromStream {
+			out = append(out, site[0])
+		}
+	}
+	sort.Strings(out)
+	return out
+}
+
 func clLeanClient(c string) string { return "." + c }
 
 func clLeanHow(h string) string {
@@ -1181,12 +1308,16 @@ func clGen(root *pkgSrc) {
 	}
 	b.WriteString("]\n")
 	startBounded, startSelStream := clStartFacts(root, fs)
+	var bound []string
+	for _, c := range clAnswerBound(root, fs) {
+		bound = append(bound, clLeanClient(c))
+	}
 	var unguarded []string
 	for _, c := range clCloseUnguarded(root) {
 		unguarded = append(unguarded, clLeanClient(c))
 	}
-	fmt.Fprintf(&b, "def clTables : Tables :=\n  { inserts := clInserts, bodies := clBodies, selects := clSelects, chanClosers := clChanClosers, closeUnguarded := [%s], waitSites := clWaitSites,\n    readerCloses := %s, watcherCancels := %s, startGuarded := %s, startBounded := %s, startSelStream := %s }\n",
-		strings.Join(unguarded, ", "), leanBool(clReaderCloses(root, fs)), leanBool(clWatcherCancels(root, fs)), leanBool(clStartGuarded(root, fs)), leanBool(startBounded), leanBool(startSelStream))
+	fmt.Fprintf(&b, "def clTables : Tables :=\n  { inserts := clInserts, bodies := clBodies, selects := clSelects, chanClosers := clChanClosers, answerBound := [%s], closeUnguarded := [%s], waitSites := clWaitSites,\n    readerCloses := %s, watcherCancels := %s, startGuarded := %s, backoffCtx := %s, startBounded := %s, startSelStream := %s }\n",
+		strings.Join(bound, ", "), strings.Join(unguarded, ", "), leanBool(clReaderCloses(root, fs)), leanBool(clWatcherCancels(root, fs)), leanBool(clStartGuarded(root, fs)), leanBool(clBackoffCtx()), leanBool(startBounded), leanBool(startSelStream))
 	b.WriteString("end Mcp.Gen.CallFacts\n")
 	writeIfChanged("CallFacts.lean", b.String())
 }
